@@ -22,6 +22,7 @@ from .builtins_model import BuiltinMixin
 from .source import SourceIndex
 
 I = z3.IntSort()
+DEBUG = bool(__import__('os').environ.get('PYVC_DEBUG'))
 
 
 class Frame:
@@ -69,6 +70,7 @@ class Engine(HeapMixin, ExprMixin, StmtMixin, CallMixin, BuiltinMixin):
         self.old = None
         self.cur_line = 0
         self.model_vars = {}
+        self.options = {}
 
     # ------------------------------------------------------------- frames
     @property
@@ -86,36 +88,184 @@ class Engine(HeapMixin, ExprMixin, StmtMixin, CallMixin, BuiltinMixin):
         g = z3.simplify(goal)
         if z3.is_true(g):
             verdict, model = 'proved', None
+        elif self.known_fact(goal):
+            verdict, model = 'proved', None
         else:
-            r = p.check(z3.Not(goal), timeout=self.timeout_ms)
-            if r == z3.unsat:
-                verdict, model = 'proved', None
-            elif r == z3.sat:
-                # confirm with the exact (nonlinear) facts behind the PYMUL abstraction
-                p.solver.push()
-                p.solver.add(z3.Not(goal))
-                for f in p.__dict__.get('exact_facts', []):
-                    p.solver.add(f)
-                p.solver.set('timeout', self.timeout_ms)
-                r2 = p.solver.check()
-                if r2 == z3.sat:
-                    verdict = 'refuted'
-                    model = self.extract_model(p.solver.model())
-                elif r2 == z3.unsat:
-                    verdict, model = 'proved', None
-                else:
-                    verdict, model = 'unknown', None
-                p.solver.pop()
-                p.solver.set('timeout', self.feas_timeout_ms)
-            else:
-                verdict, model = 'unknown', None
+            verdict, model = self.check_goal(goal)
         dt = time.time() - t0
+        if DEBUG and (dt > 1 or verdict != 'proved'):
+            print(f'  [prove] path {self.path_id} {name}: {verdict} in {dt:.1f}s '
+                  f'({getattr(self, "last_reason", "")})', flush=True)
         ob = Obligation(name, verdict, dt, model, self.path_id, line or self.cur_line)
         if verdict == 'unknown':
             ob.detail = self.smt2(goal)
         self.obligations.append(ob)
         p.assume(goal)
         return verdict
+
+    def known_fact(self, goal):
+        """Goal is (a conjunction of) facts literally present in the path condition."""
+        ids = self.p.fact_ids
+        if goal.get_id() in ids:
+            return True
+        if z3.is_and(goal):
+            return all(self.known_fact(c) for c in goal.children())
+        return False
+
+    def check_goal(self, goal, max_rounds=40):
+        """pc => goal, with incremental linearisation of the products PYMUL(b, d):
+        a model of the linear abstraction in which some product differs from b*d
+        is cut off by valid lemmas (tangent planes at the model point, additivity
+        with the other products of the same multiplier) and the query is repeated."""
+        import time
+        p = self.p
+        deadline = time.time() + self.timeout_ms / 1000.0 * 3
+        p.solver.push()
+        p.solver.add(z3.Not(goal))
+        p.solver.set('timeout', self.timeout_ms)
+        lemmas_added = []
+        try:
+            for rnd in range(max_rounds):
+                r = p.solver.check()
+                if r == z3.unsat:
+                    return 'proved', None
+                if r != z3.sat:
+                    self.last_reason = f'solver {r} in round {rnd}: {p.solver.reason_unknown()}'
+                    return 'unknown', None
+                m = p.solver.model()
+                lem = self.refine_products(m)
+                if DEBUG:
+                    print(f'    [refine] round {rnd}: {len(lem)} lemmas, '
+                          f'{len(p.__dict__.get("all_products", {}))} products', flush=True)
+                if not lem:
+                    if self.products_consistent(m):
+                        return 'refuted', self.extract_model(m)
+                    # no gap fact is violated but some product is not b*a in this model:
+                    # ask for a model of the exact (nonlinear) constraints
+                    p.solver.push()
+                    for bid, (b, reg) in p.__dict__.get('multipliers', {}).items():
+                        for aid, (atom, mt) in reg.items():
+                            p.solver.add(mt == b * atom)
+                    r2 = p.solver.check()
+                    try:
+                        if r2 == z3.sat:
+                            return 'refuted', self.extract_model(p.solver.model())
+                        if r2 == z3.unsat:
+                            return 'proved', None
+                        self.last_reason = f'exact nonlinear check: {r2}'
+                        return 'unknown', None
+                    finally:
+                        p.solver.pop()
+                for f in lem:
+                    p.solver.add(f)
+                lemmas_added.extend(lem)
+                if time.time() > deadline:
+                    self.last_reason = f'deadline after {rnd + 1} refinement rounds'
+                    return 'unknown', None
+            self.last_reason = 'refinement round limit'
+            return 'unknown', None
+        finally:
+            p.solver.pop()
+            p.solver.set('timeout', self.feas_timeout_ms)
+            # the lemmas are valid facts: keep them for the rest of the path
+            for f in lemmas_added:
+                p.assume(f)
+
+    def products_consistent(self, m):
+        for bid, (b, reg) in self.p.__dict__.get('multipliers', {}).items():
+            b0 = m.eval(b, model_completion=True)
+            for aid, (atom, mt) in reg.items():
+                a0 = m.eval(atom, model_completion=True)
+                m0 = m.eval(mt, model_completion=True)
+                if not (z3.is_int_value(b0) and z3.is_int_value(a0) and z3.is_int_value(m0)):
+                    return False
+                if m0.as_long() != b0.as_long() * a0.as_long():
+                    return False
+        return True
+
+    def refine_products(self, m, max_new=10):
+        """Valid lemmas that cut off a model in which some linear combination of
+        products  L = c0*b + sum c_i*PYMUL(b, a_i)  differs from  b*(c0 + sum c_i*a_i).
+        For the model value e0 of e = c0 + sum c_i*a_i:
+            b > 0:  e >= e0 -> L >= e0*b   and   e <= e0 -> L <= e0*b      (mirror for b < 0)"""
+        import itertools
+        p = self.p
+        mult = p.__dict__.get('multipliers', {})
+        if not mult:
+            return []
+
+        def val(t):
+            v = m.eval(t, model_completion=True)
+            return v.as_long() if z3.is_int_value(v) else None
+        # group atoms by the model value of their multiplier
+        groups = {}
+        for bid, (b, reg) in mult.items():
+            b0 = val(b)
+            if b0 is None:
+                continue
+            g = groups.setdefault(b0, [])
+            for aid, (atom, mt) in reg.items():
+                a0, m0 = val(atom), val(mt)
+                if a0 is None or m0 is None:
+                    continue
+                g.append((b, atom, mt, a0, m0))
+        done = p.__dict__.setdefault('refined', set())
+        lemmas = []
+        for b0, atoms in groups.items():
+            if not atoms:
+                continue
+            base_b = atoms[0][0]
+            n = len(atoms)
+            for size in (1, 2, 3, 4):
+                if len(lemmas) >= max_new:
+                    break
+                for idxs in itertools.combinations(range(n), size):
+                    if len(lemmas) >= max_new:
+                        break
+                    for signs in itertools.product((1, -1), repeat=size):
+                        if signs[0] == -1:
+                            continue   # e and -e give the same lemma
+                        for c0 in (0, 1, -1):
+                            e0 = c0 + sum(sg * atoms[i][3] for sg, i in zip(signs, idxs))
+                            L0 = c0 * b0 + sum(sg * atoms[i][4] for sg, i in zip(signs, idxs))
+                            if L0 == b0 * e0:
+                                continue
+                            # only the sign/gap facts (e>=1 -> L>=b, e<=-1 -> L<=-b, e==0 -> L==0)
+                            ab = abs(b0)
+                            violated = (e0 == 0 and L0 != 0) or \
+                                (b0 > 0 and ((e0 >= 1 and L0 < b0) or (e0 <= -1 and L0 > -b0))) or \
+                                (b0 < 0 and ((e0 >= 1 and L0 > b0) or (e0 <= -1 and L0 < -b0))) or \
+                                (b0 == 0 and L0 != 0)
+                            if not violated:
+                                continue
+                            e0 = 1 if e0 >= 1 else (-1 if e0 <= -1 else 0)
+                            key = (tuple(atoms[i][2].get_id() for i in idxs), signs, c0, e0)
+                            if key in done:
+                                continue
+                            done.add(key)
+                            e = z3.IntVal(c0)
+                            L = c0 * base_b
+                            guard = []
+                            for sg, i in zip(signs, idxs):
+                                bi, atom, mt, _, _ = atoms[i]
+                                e = e + sg * atom
+                                L = L + sg * mt
+                                if not bi.eq(base_b):
+                                    guard.append(bi == base_b)
+                            b = base_b
+                            body = z3.And(
+                                z3.Implies(e == 0, L == 0),
+                                z3.Implies(z3.And(b > 0, e >= 1), L >= b),
+                                z3.Implies(z3.And(b > 0, e <= -1), L <= -b),
+                                z3.Implies(z3.And(b < 0, e >= 1), L <= b),
+                                z3.Implies(z3.And(b < 0, e <= -1), L >= -b),
+                                z3.Implies(b == 0, L == 0))
+                            lemmas.append(z3.Implies(z3.And(*guard), body) if guard else body)
+                            if len(lemmas) >= max_new:
+                                break
+                        if len(lemmas) >= max_new:
+                            break
+        return lemmas
 
     def smt2(self, goal):
         s = z3.Solver()
